@@ -149,8 +149,10 @@ type Tr struct {
 	lockMode  bool
 	inlineBudget int
 	valOKText string
+	specDefs  map[string]string
 	noUserInv bool
 	noContracts bool
+	noTimeouts bool
 	globalStoreGuard func(a *Act, st *State, g *ssa.Global) Term
 	prop      string
 	piTerm    Term
@@ -206,6 +208,9 @@ func (tr *Tr) comp(name string, keySorts []string, valSort string, value bool) *
 	if c, ok := tr.comps[name]; ok {
 		return c
 	}
+	if name == "ghost:W" {
+		valSort = "World"
+	}
 	c := &Component{name: name, keySorts: keySorts, valSort: valSort, value: value}
 	if name == "ghost:sent" || name == "ghost:applied" {
 		c.local = true // counts the events of this activation only; callees cannot change it
@@ -254,6 +259,7 @@ type prov struct {
 	keepValue func(key []Term) Term
 	hint      string
 	resolve   func(c *Component, prev *HeapV) *HeapV
+	resolved  map[string]*HeapV // one resolution per provenance node, shared by every state derived from it
 }
 
 // heapOf returns the current version of component c in st (resolving it lazily).
@@ -262,6 +268,15 @@ func (tr *Tr) heapOf(st *State, c *Component) *HeapV {
 		return h
 	}
 	var h *HeapV
+	if st.prov != nil {
+		if st.prov.resolved == nil {
+			st.prov.resolved = map[string]*HeapV{}
+		}
+		if r, ok := st.prov.resolved[c.name]; ok {
+			st.heap[c.name] = r
+			return r
+		}
+	}
 	switch {
 	case st.prov == nil:
 		var ok bool
@@ -309,6 +324,9 @@ func (tr *Tr) heapOf(st *State, c *Component) *HeapV {
 				h = tr.newHeapBase(c, p.hint+"_"+c.name)
 			}
 		}
+	}
+	if st.prov != nil {
+		st.prov.resolved[c.name] = h
 	}
 	st.heap[c.name] = h
 	return h
@@ -380,6 +398,7 @@ type Act struct {
 	curPos   token.Pos
 	cur      *State
 	mergeRunDefers bool
+	mergedExit *State
 	havocCallee *ssa.Function
 	frameCallee *ssa.Function
 	visMode  string
@@ -404,6 +423,7 @@ type loopInfo struct {
 	invs   []*loopInv
 	measure []Term
 	visName string
+	phiEntry map[*ssa.Phi]Term
 	visCountHead Term
 	visHead func(x Term) Term
 	visBack func(x Term) Term
